@@ -891,8 +891,8 @@ void vh_run(const vh::Case& cs, vh::Ctx& ctx) {
   if (!(flags & 1)) flags &= ~2;
   const int mode = arch == 0 ? 32 : 64;
   const char* arch_name = arch == 0 ? "x86" : arch == 1 ? "x64" : "a64";
-  const bool force_rebind = ctx.opts && ctx.opts->geti("force-rebind", 0) != 0;
-  const bool force_rmlast = ctx.opts && ctx.opts->geti("force-remove-through-last", 0) != 0;
+  const bool force_rebind = ctx.opts && ctx.opts->geti("force-rebind", ctx.is_known("builder-bind-bound-label-asserts") ? 0 : 1) != 0;
+  const bool force_rmlast = ctx.opts && ctx.opts->geti("force-remove-through-last", ctx.is_known("builder-remove-nodes-through-last-asserts") ? 0 : 1) != 0;
 
   Arena pool_arena(4096);
   Path A, P[2];
